@@ -6,6 +6,7 @@ package rules
 import (
 	"fmt"
 	"go/ast"
+	"go/token"
 	"go/types"
 	"sort"
 	"strings"
@@ -774,4 +775,108 @@ func (c *Ctx) resolvedParamValue(fi *core.FuncInfo, v ast.Expr, at ast.Node, dep
 		return all && n > 0
 	}
 	return false
+}
+
+func init() {
+	register(Rule{
+		Name:  "GUARD-DUPSKIP",
+		Props: []string{"C14"},
+		Doc:   "in a loop collecting entries into the map it returns, the branch taken for a key already collected skips that element (continue) and does not leave the loop",
+		Run:   guardDupSkip,
+	})
+}
+
+// guardDupSkip: `if _, seen := result[k]; seen { … }` inside a loop that stores into result, result being returned:
+// the body must end the iteration (continue, or simply nothing more to do), never the loop (break, return, goto):
+// the elements after a duplicate would be dropped from the answer.
+func guardDupSkip(c *Ctx) {
+	n := 0
+	for _, fi := range specQueryMethods(c) {
+		info := c.info(fi)
+		pm := c.parents(fi)
+		ord := 0
+		ast.Inspect(fi.Decl.Body, func(nd ast.Node) bool {
+			ifs, ok := nd.(*ast.IfStmt)
+			if !ok {
+				return true
+			}
+			// the membership test
+			var m ast.Expr
+			for _, cd := range core.SplitCond(ifs.Cond, false) {
+				if cd.Kind != core.CondBool || cd.Neg {
+					continue
+				}
+				// the flag itself, or one operand of a disjunction (name == "" || seen)
+				var visit func(e ast.Expr)
+				visit = func(e ast.Expr) {
+					e = core.Unparen(e)
+					if be, ok := e.(*ast.BinaryExpr); ok && be.Op == token.LOR {
+						visit(be.X)
+						visit(be.Y)
+						return
+					}
+					if mm, _, isLookup := c.commaOkLookup(fi, e); isLookup {
+						m = mm
+					}
+				}
+				visit(cd.Expr)
+			}
+			mo := core.ObjOf(info, m)
+			if m == nil || mo == nil || !c.flowsToReturn(fi, m) {
+				return true
+			}
+			// the enclosing loop stores into the same map
+			loop := pm.Enclosing(ifs, func(n ast.Node) bool {
+				switch n.(type) {
+				case *ast.RangeStmt, *ast.ForStmt:
+					return true
+				}
+				return false
+			})
+			if loop == nil {
+				return true
+			}
+			stores := false
+			ast.Inspect(loop, func(k ast.Node) bool {
+				if as, ok := k.(*ast.AssignStmt); ok {
+					for _, l := range as.Lhs {
+						if ix, ok := core.Unparen(l).(*ast.IndexExpr); ok && core.ObjOf(info, ix.X) == mo {
+							stores = true
+						}
+					}
+				}
+				return true
+			})
+			if !stores {
+				return true
+			}
+			n++
+			ord++
+			leaves := ""
+			ast.Inspect(ifs.Body, func(k ast.Node) bool {
+				switch x := k.(type) {
+				case *ast.FuncLit, *ast.RangeStmt, *ast.ForStmt, *ast.SwitchStmt, *ast.SelectStmt:
+					return false
+				case *ast.BranchStmt:
+					if x.Tok == token.BREAK || x.Tok == token.GOTO {
+						leaves = x.Tok.String()
+					}
+				case *ast.ReturnStmt:
+					leaves = "return"
+				}
+				return true
+			})
+			k := fi.QName() + "/seen"
+			if ord > 1 {
+				k = fmt.Sprintf("%s#%d", k, ord)
+			}
+			c.S.Decide(leaves == "", "C14", "GUARD-DUPSKIP", k, c.P.Pos(ifs.Pos()),
+				"a key already collected only ends the current iteration",
+				"the branch taken when the key is already in the result leaves the loop ("+leaves+"): the elements that follow a duplicate are missing from the answer")
+			return true
+		})
+	}
+	if n < 1 {
+		c.S.Note("GUARD-DUPSKIP: no duplicate-skipping collecting loop in the query methods (one on the pinned tree: SecurityDefinitionsFor); the rule is vacuous for other ways of writing the loop")
+	}
 }
